@@ -110,7 +110,7 @@ func runC18(c *Ctx, idx int) {
 	f.BlankCap = (idx/3)%2 == 0
 	src := f.doc()
 	c.SetInput(func() any { return map[string]any{"html": src, "features": f} })
-	cr := c.applyReader(src, nil)
+	cr := c.applyVariant(src, nil, idx/3)
 	if !c.usable(cr) {
 		return
 	}
